@@ -42,6 +42,20 @@ let () =
               | _ -> raise (Shape "query")) (list_ qs))
       | _ -> raise (Shape "meaning args"))
 
+(* undercut <expr> <wordbreaks> <cmds> ((words prefix)...) -> (("c"...) ...)   Spec/Undercut.v: the candidates withheld
+   because a strictly earlier level has a candidate extending the prefix *)
+let () =
+  register "undercut" (fun v ->
+      match v with
+      | List [e; wb; cmds; qs] ->
+          let e = expr_of e in
+          let en = env_of wb cmds in
+          List (List.map (fun q ->
+              match q with
+              | List [ws; p] -> List (List.map ss (Extracted.Undercut.undercut e en (words ws) (cl (string_ p))))
+              | _ -> raise (Shape "query")) (list_ qs))
+      | _ -> raise (Shape "undercut args"))
+
 let () =
   register "paths" (fun v ->
       match v with
